@@ -167,6 +167,11 @@ class Graph(object):
     def vi(self, i):
         return (self.nh[self.pre[i]] * 31 + self.lh[self.lab[i]]) & 0x3fffffff
 
+    def duplicate(self, i):
+        """a nondeterministic step appears once per allowed post-state: test it once"""
+        k = (self.pre[i], self.lab[i])
+        return k in self.nd and self.post[i] != min(self.nd[k])
+
     def expected(self, i):
         k = (self.pre[i], self.lab[i])
         if k in self.nd:
@@ -410,14 +415,16 @@ def screen_transition(objs, R, C, pre, name, args, vi, expected, col):
         try:
             getattr(o, m)(*cargs)
         except Exception as e:
-            col.add('C19:%s-raised' % m, case, {'exception': '%s: %s' % (type(e).__name__, e), 'observed': raw_state(o)}, sig)
+            col.add('C19:%s-raised' % m, case, {'call': case['call'], 'on': case['pre'], 'exception': '%s: %s' % (type(e).__name__, e),
+                                                'observed': raw_state(o)}, sig)
             continue
         if not grid_shape_ok(o.w, R, C):
-            col.add('C19:%s-shape' % m, case, {'observed': raw_state(o)}, sig)
+            col.add('C19:%s-shape' % m, case, {'call': case['call'], 'on': case['pre'], 'observed': raw_state(o)}, sig)
             continue
         got = proj_screen(o, ych, True)
         if got not in expected:
-            col.add(classify_screen(m, pre, expected, got), case, {'observed': st_json(got)}, sig)
+            col.add(classify_screen(m, pre, expected, got), case, {'call': case['call'], 'on': case['pre'], 'observed': st_json(got),
+                                                                  'reference_allows': case['expected']}, sig)
         elif got != pre:
             col.count['nontrivial'] += 1
 
@@ -431,6 +438,8 @@ def _screen_worker(rng_):
     os.chdir(_G['cwd'])
     col, objs = Collector(), Objects()
     for i in range(lo, hi):
+        if g.duplicate(i):
+            continue
         name, args = g.labels[g.lab[i]]
         screen_transition(objs, R, C, g.states[g.pre[i]], name, args, g.vi(i), g.expected(i), col)
     return col
@@ -484,7 +493,8 @@ def accessor_test(objs, R, C, st, vi, table, col, full, rng, only=None):
             load_screen(o, st, ych)
             continue
         if got != want or type(got) is not type(want):
-            col.add('C19:accessor-%s' % name, case, {'returned': repr(got)}, sig)
+            col.add('C19:accessor-%s' % name, case, {'call': '%s(%s)' % (name, ', '.join(map(str, a))), 'on': case['state'],
+                                                     'returned': repr(got), 'definition_over_the_grid': repr(want)}, sig)
         else:
             col.count['nontrivial'] += 1
         if not grid_shape_ok(o.w, R, C) or proj_screen(o, ych, True) != st[:4]:
@@ -647,6 +657,8 @@ def _ansi_worker(rng_):
     os.chdir(_G['cwd'])
     col, objs = Collector(), Objects()
     for i in range(lo, hi):
+        if g.duplicate(i):
+            continue
         name, args = g.labels[g.lab[i]]
         ansi_transition(objs, R, C, g.states[g.pre[i]], args[0], g.vi(i), g.expected(i), col)
     return col
@@ -1037,8 +1049,8 @@ def screen_traces(ctx, quick):
     out = {}
     tid = 0
     for si, (R, C) in enumerate(SIZES_RANDOM):
-        n = (30 if quick else 250) if R * C > 500 else (150 if quick else 1500)
-        nops = 50 if R * C > 500 else 30
+        n = (20 if quick else 250) if R * C > 500 else (150 if quick else 1500)
+        nops = (40 if quick else 50) if R * C > 500 else 30
         lst = []
         for k in range(n):
             rng = random.Random(ctx.seed * 7919 + si * 100003 + k)
@@ -1361,7 +1373,7 @@ def pool_map_traces(fn, n, shared):
 def ansi_random_traces(ctx, quick):
     out = {}
     for si, (R, C) in enumerate(SIZES_RANDOM):
-        n = (40 if quick else 300) if R * C > 500 else (150 if quick else 1200)
+        n = (30 if quick else 300) if R * C > 500 else (150 if quick else 1200)
         lst = []
         for k in range(n):
             rng = random.Random(ctx.seed * 15485863 + si * 1000003 + k)
@@ -1495,8 +1507,9 @@ def run_c18(ctx):
         'distinct_nontrivial': total.count['nontrivial'],
         'rule': 'one implementation test per transition (pre-state, Feed(symbol), post-state) of the dumped TLC state graphs on a '
                 'real ANSI object built in the pre-state (str / bytes in latin-1, utf-8, cp437; write / process / process_list); '
-                'non-trivial = passed and the state changed; plus every split of every chunking input into <= 4 pieces '
-                '(non-trivial = a real split that passed); plus recorded runs validated by TLC (ScreenAnsiTrace)',
+                'non-trivial = passed and the state changed (distinct (state, symbol) pairs; exhaustive refers to these graphs); plus '
+                'every split of every chunking input into <= 4 pieces (non-trivial = a real split that passed); plus recorded '
+                'runs validated by TLC (ScreenAnsiTrace)',
         'exhaustive': True,
         'graphs': gstats, 'state_symbol_pairs_replayed': len(pairs),
         'chunking': {'inputs': len(inputs), 'from_tlc_simulate': nsim, 'splits': ch.count['evaluations'],
